@@ -31,6 +31,7 @@ from experimaestro.core.objects import Config, ConfigWalkContext, WatchedOutput
 from experimaestro.utils import logger
 from experimaestro.locking import Locks, LockError, Lock
 from experimaestro.utils.asyncio import asyncThreadcheck
+from experimaestro.utils import verif as _verif
 from .workspace import RunMode, Workspace
 from .dependencies import Dependency, DependencyStatus, Resource
 import concurrent.futures
@@ -458,6 +459,9 @@ class SchedulerCentral(threading.Thread):
 
     @staticmethod
     def create(name: str):
+        if _verif.ACTIVE and _verif.central_hook is not None:
+            return _verif.central_hook(name)
+
         instance = SchedulerCentral(name)
         instance.start()
         instance._ready.wait()
